@@ -16,9 +16,9 @@ RULE = ("the decision table of the statement, through model and real code (`buil
         "(whole-data-set, Periodic, Individual), Bilinear. Oracle: an independent re-implementation of `Valid`: valid => built; otherwise a "
         "BuilderError whose kind is in the set of violated requirements; never a panic. corpus: the D4 witnesses (rank-0 / rank-1 dynamic "
         "data). non-trivial = case with at least one violated requirement")
-PARTIAL = ["for CubicSpline the theorems cover the validation chain and the pass-through of the strategy's own errors (C10_spline, "
-           "C10_spline_bounds_shape); that the spline build itself never panics on validated multi-lane input is established by C02_build "
-           "for single lanes and exercised here for n-d data"]
+PARTIAL = ["CubicSpline: C10_spline shows build() = validation followed by the strategy's own build with its error passed through; that this "
+           "build succeeds (no error, no panic) on validated data for every lane is C08_spline_build_lanes (non-periodic pairs) and C03_periodic "
+           "(single lane); Periodic on n-d data is covered by the runs"]
 ASSUMPTIONS = ["non-NaN comparison is a linear order (C10_nan covers NaN without that assumption)"]
 
 
